@@ -218,6 +218,13 @@ def gen_meshes(ctx):
             meshes.append(G.solid_mesh(rng, ks, o))
             o = dict(o, ragged=False)
             meshes.append(G.shell_mesh(rng, rng.choice([['tri'], ['quad'], ['tri', 'quad']]), o))
+    # ids just below 2**53 (nodes and elements)
+    for ks, fn in ((['hex', 'tet'], G.solid_mesh), (['tri', 'quad'], G.shell_mesh)):
+        o = G.random_opts(rng)
+        o['node_ids'] = 'huge'
+        o['elem_ids'] = 'huge'
+        o['ragged'] = False
+        meshes.append(fn(rng, ks, o))
     # mixed meshes whose blocks are stored in id order AND ones that are not
     for rep in range(2 * n):
         for sh in (False, True):
@@ -540,11 +547,12 @@ def motion_stream(ctx, model_ok):
         entries = [('normals', 'centroid'), ('normals', 'linear'), ('areas', 'linear'), ('metrics', None)] \
             if mesh['meta']['dim'] == 2 else [('volumes', 'linear'), ('volumes', 'centroid'), ('metrics', None)]
         for entry, mode in entries:
-            for pop_node in (False, True):
-                for order in ('qmq', 'mq'):
+            for prep, order in (('reset', 'qmq'), ('reset', 'qmq'), ('reset', 'mq'), ('pop_node', 'qmq'),
+                                ('as_built', 'qmq')):
+                if True:
                     mv = rng.choice(MOTIONS)
                     tasks.append({'id': len(tasks), 'kind': 'motion', 'mesh': m, 'mi': mi, 'entry': entry,
-                                  'mode': mode, 'pop_node': pop_node, 'order': order,
+                                  'mode': mode, 'prep': prep, 'order': order,
                                   'motions': mv[0], 'M': mv[1], 't': mv[2]})
     res = run_impl(ctx, tasks, 'motion')
     defs, items, index = [], [], {}
@@ -553,16 +561,16 @@ def motion_stream(ctx, model_ok):
         r = res[t['id']]
         mesh = meshes[t['mi']]
         outcome = 'crash' if 'crash' in r else 'refused' if r.get('refused') else 'moved'
-        ctx.count(f'motion:{outcome}:{"NODE popped" if t["pop_node"] else "as built"}:{t["order"]}')
+        ctx.count(f'motion:{outcome}:{t["prep"]}:{t["order"]}')
         ctx.count('motion:coord_dtype:' + t['mesh']['coord_dtype'])
-        ctx.case(['motion', t['entry'], t['mode'], t['pop_node'], t['order'], t['motions'],
+        ctx.case(['motion', t['entry'], t['mode'], t['prep'], t['order'], t['motions'],
                   mesh['node_ids'], mesh['coords'], mesh['blocks']],
                  sample={'stream': 'same object: query, move in place, query', 'entry': t['entry'],
                          'motions': t['motions'], 'outcome': outcome})
         if outcome == 'crash':
             n_bad += 1
             ctx.violation('impl-violation', {'stream': 'motion', **{k: t[k] for k in
-                          ('entry', 'mode', 'pop_node', 'order', 'motions', 'mesh')}},
+                          ('entry', 'mode', 'prep', 'order', 'motions', 'mesh')}},
                           'motion is performed or refused with NotImplementedError', r,
                           'same-object motion stream', found_input=True,
                           signature={'kind': 'motion-crash', 'entry': t['entry']})
@@ -578,7 +586,7 @@ def motion_stream(ctx, model_ok):
                for ra, rb in zip(held, coords) for a, b in zip(ra, rb)):
             n_bad += 1
             ctx.violation('impl-violation',
-                          {'stream': 'motion', **{k: t[k] for k in ('entry', 'mode', 'pop_node', 'order', 'motions', 'mesh')}},
+                          {'stream': 'motion', **{k: t[k] for k in ('entry', 'mode', 'prep', 'order', 'motions', 'mesh')}},
                           'node coordinates after the motion = exact rigid motion of the original ones',
                           {'coords_after': [[float(x) for x in row] for row in held][:6],
                            'expected': [[float(x) for x in row] for row in coords][:6]},
@@ -634,7 +642,7 @@ def motion_stream(ctx, model_ok):
         n_bad += 1
         what = 'stored attribute' if j % 2 else 'returned value'
         ctx.violation('impl-violation',
-                      {'stream': 'motion', **{k: t[k] for k in ('entry', 'mode', 'pop_node', 'order', 'motions', 'mesh')}},
+                      {'stream': 'motion', **{k: t[k] for k in ('entry', 'mode', 'prep', 'order', 'motions', 'mesh')}},
                       'after an accepted in-place motion the same object answers for the MOVED coordinates '
                       '(model evaluated on the coordinates the object now holds)',
                       {'first': r.get('first'), 'second': r.get('second'),
@@ -646,6 +654,122 @@ def motion_stream(ctx, model_ok):
                                  'order': t['order'], 'motion': t['motions'][0]['kind']},
                       what=f'{t["entry"]}: {what} after {t["motions"][0]["kind"]}() is not that of the moved mesh')
     ctx.notes['motion_stream'] = {'cases': len(tasks), 'compared': len(items), 'failures': n_bad}
+    return len(tasks), n_bad
+
+
+# ------------------------------- 4b. far from the origin, decimal length scales
+# Supported range assumed per kernel (what the UNCHANGED kernels deliver, measured):
+#  * kernels built on point differences (tri/quad areas in all modes, normals, tet, pyramid /
+#    prism / hex linear, hex Gauss): relative error ~ eps * |position| / cell, i.e. 3e-9 at 1e7
+#    cell sizes from the origin -> tested up to 1e7 cell sizes with relative tolerance 1e-7;
+#  * centroid volume kernels (hex / prism / pyramid, the default mode) use absolute positions and
+#    float32 accumulators: 3e-5 at 1e2, 2e-4 at 1e3, 2e-3 at 1e4 cell sizes, useless beyond
+#    -> tested up to 1e3 cell sizes with relative tolerance 2e-3.
+FAR = [(1e5, 0.37), (1e6, 1.7e-3), (1e7, 2.3e2), (4.1e6, 1.0)]
+NEAR_CENTROID = [(1e2, 0.37), (1e3, 1.7e-3)]
+
+
+def farfield_stream(ctx, model_ok):
+    rng = ctx.rng
+    tasks, meshes = [], []
+    reps = 1 if ctx.tier == 'quick' else 4
+    for rep in range(reps):
+        for K, h in FAR + NEAR_CENTROID:
+            for dim, ks in ((2, ['tri', 'quad']), (2, ['quad']), (3, ['hex']), (3, ['tet', 'prism', 'pyr'])):
+                o = G.random_opts(rng, jitter_ok=False)
+                o['matrix'] = rng.choice([m for m in G.MATRICES if m[0] in
+                                          ('identity', 'rot90z', 'shear', 'general', 'reflect_z', 'cyclic')])
+                base = G.shell_mesh(rng, ks, dict(o, ragged=False)) if dim == 2 else \
+                    G.solid_mesh(rng, ks, o, dims=(2, 1, 1))
+                off = [0.32 * K * rng.choice([1, -1]), K, 1.5e-3 * K]
+                rng.shuffle(off)
+                coords = [[float(c) * h + off[k] * h for k, c in enumerate(row)] for row in base['coords']]
+                base = dict(base, coords=coords)
+                base['meta'] = dict(base['meta'], K=K, h=h, coord_dtype='float64')
+                meshes.append(base)
+    for mi, mesh in enumerate(meshes):
+        m = {k: mesh[k] for k in ('node_ids', 'coords', 'blocks')}
+        K = mesh['meta']['K']
+        if mesh['meta']['dim'] == 2:
+            if K < 1e4:
+                continue
+            calls = [('areas', mo, False, True) for mo in c11_kernels.MODES] + \
+                    [('normals', 'centroid', None, None), ('normals', 'linear', None, None)]
+        elif K >= 1e4:
+            calls = [('volumes', 'linear', False, False), ('volumes', 'gaussian', False, False)]
+        else:
+            calls = [('volumes', 'centroid', False, False), ('metrics', None, False, False)]
+        for entry, mode, rs, ab in calls:
+            tasks.append({'id': len(tasks), 'kind': 'entry', 'entry': entry, 'mode': mode, 'raise': rs,
+                          'abs': ab, 'mesh': m, 'mi': mi})
+    res = run_impl(ctx, tasks, 'farfield')
+    defs, items, done = [], [], set()
+    n_bad = 0
+    for t in tasks:
+        r = res[t['id']]
+        mesh = meshes[t['mi']]
+        K, h = mesh['meta']['K'], mesh['meta']['h']
+        ctx.count('farfield:offset %g cell sizes, cell size %g' % (K, h))
+        ctx.case(['farfield', t['entry'], t['mode'], mesh['coords'], mesh['blocks']],
+                 sample={'stream': 'far from the origin', 'offset_in_cell_sizes': K, 'cell_size': h,
+                         'entry': t['entry'], 'mode': t['mode'], 'first_value': (r.get('values') or [None])[0]})
+        if 'values' not in r and 'error' not in r:
+            n_bad += 1
+            ctx.violation('impl-violation', {'stream': 'farfield', **{k: t[k] for k in ('entry', 'mode', 'mesh')}},
+                          'entry point returns', {k: r.get(k) for k in ('error', 'crash')}, 'far-field stream',
+                          found_input=True, signature={'kind': 'farfield-error', 'entry': t['entry']})
+            continue
+        if t['mi'] not in done:
+            done.add(t['mi'])
+            defs.append(mesh_defs_q(f'f{t["mi"]}', mesh['node_ids'],
+                                    [[Fraction(x) for x in row] for row in mesh['coords']], mesh['blocks']))
+        vec = t['entry'] == 'normals'
+        d = mesh['meta']['dim']
+        tol = Fraction(1, 10 ** 7) if K >= 1e4 else Fraction(2, 10 ** 3)
+        eabs = tol if vec else tol * Fraction(h) ** d
+        cl = f'(close3 {qf(eabs)} 0)' if vec else f'(close {qf(eabs)} {qf(tol)})'
+        tt = dict(t, **{'raise': bool(t['raise']), 'abs': bool(t['abs'])})
+        call = entry_call(tt, 'spec', f'f{t["mi"]}')
+        if 'error' in r:
+            items.append((t['id'], f'agree {cl} ({call}) None'))
+            continue
+        if vec:
+            rows = [f'({zlit(i)}, {v3flit([hexq(x) for x in v])})' for i, v in zip(r['ids'], r['values'])]
+        else:
+            rows = [f'({zlit(i)}, {qf(hexq(v))})' for i, v in zip(r['ids'], r['values'])]
+        items.append((t['id'], f'agree {cl} ({call}) (Some {lib.coq_list(rows)})'))
+    bad = []
+    if model_ok and items:
+        text = HEADER + '\n'.join(defs) + '\nDefinition cases : list (nat * bool) := [' + \
+            ';\n'.join(f'({i}%nat, {e})' for i, e in items) + '].\n' \
+            'Goal True. idtac "@@ failing". Abort.\n' \
+            'Eval vm_compute in map fst (filter (fun c => negb (snd c)) cases).\n'
+        rc, out, err = ctx.coq_eval('FarCases', text, timeout=900)
+        bad = failing(out, 'failing') if rc == 0 else None
+        if bad is None:
+            ctx.log('FarCases.v failed to compile:', err[-600:])
+            ctx.violation('tie-broken', {'stage': 'FarCases.v'}, 'case file compiles', err[-300:],
+                          'far-field stream', found_input=False, signature={'kind': 'case-file', 'file': 'FarCases'})
+            bad = []
+            n_bad += 1
+    byid = {t['id']: t for t in tasks}
+    for i in bad:
+        t = byid[i]
+        mesh = meshes[t['mi']]
+        n_bad += 1
+        ctx.violation('impl-violation',
+                      {'stream': 'farfield', 'entry': t['entry'], 'mode': t['mode'], 'mesh': t['mesh'],
+                       'offset_in_cell_sizes': mesh['meta']['K'], 'cell_size': mesh['meta']['h']},
+                      'value of the exact model on the same (float) coordinates within the relative accuracy '
+                      'the unchanged kernel delivers at that distance (1e-7; 2e-3 for centroid volumes)',
+                      {'values': [float.fromhex(v) if isinstance(v, str) else v
+                                  for v in res[i].get('values', [])][:6]},
+                      'C11_vol_affine_* / C11_area_similarity_* (translation invariance) far from the origin',
+                      found_input=True,
+                      signature={'kind': 'farfield', 'entry': t['entry'], 'mode': t['mode'],
+                                 'kinds': '+'.join(mesh['meta']['kinds'])},
+                      what=f'{t["entry"]}({t["mode"]}) loses accuracy {mesh["meta"]["K"]:g} cell sizes from the origin')
+    ctx.notes['farfield_stream'] = {'cases': len(tasks), 'compared': len(items), 'failures': n_bad}
     return len(tasks), n_bad
 
 
@@ -666,7 +790,9 @@ def history_stream(ctx, model_ok):
             o['shuffle_elems'] = rng.random() < 0.5
             meshes.append(G.solid_mesh(rng, ks, o, dims=(2, 1, 1)) if dim == 3
                           else G.shell_mesh(rng, ks, dict(o, ragged=False)))
-    flags = [(False, True), (False, False), (True, False), (True, True)]
+    flags = [(False, True), (False, False), (True, False), (True, True),
+             ('None', '1'), ('0', 'np.False_'), ('np.False_', 'np.True_'), ('1', '0'), ('np.True_', 'None')]
+    truthy = lambda x: x in (True, '1', 'np.True_')   # noqa
     for mi, mesh in enumerate(meshes):
         m = {k: mesh[k] for k in ('node_ids', 'coords', 'blocks')}
         for rep in range(3):
@@ -709,12 +835,12 @@ def history_stream(ctx, model_ok):
         for k, (c, rr) in enumerate(zip(t['calls'], r['results'])):
             e = 'volumes' if c['entry'] == 'volumes_default' else c['entry']
             vec = e == 'normals'
-            tt = {'entry': e, 'mode': c['mode'], 'raise': c['raise'], 'abs': c['abs']}
+            tt = {'entry': e, 'mode': c['mode'], 'raise': truthy(c['raise']), 'abs': truthy(c['abs'])}
             eabs, erel = entry_tol(tt, mesh)
             cl = f'(close3 {qf(eabs)} {qf(erel)})' if vec else f'(close {qf(eabs)} {qf(erel)})'
             call = entry_call(tt, 'spec', f'h{t["mi"]}')
             if 'error' in rr:
-                if rr['error'] == 'ValueError' and c['raise'] and not vec:
+                if rr['error'] == 'ValueError' and truthy(c['raise']) and not vec:
                     items.append((16 * t['id'] + k, f'raise_ok ({call})'))
                 else:
                     items.append((16 * t['id'] + k, f'agree {cl} ({call}) None'))
@@ -897,10 +1023,11 @@ def main(ctx):
     n_brick, n_brick_bad = oracle_brick(ctx, model_ok)
     n_motion, n_motion_bad = motion_stream(ctx, model_ok)
     n_hist, n_hist_bad = history_stream(ctx, model_ok)
+    n_far, n_far_bad = farfield_stream(ctx, model_ok)
     ctx.notes['search_evaluations'] = len(tasks) + n_brick + n_motion
     ctx.notes['impl_property_failures'] = {'assembly': n_prop_bad, 'closed_form': n_aff_bad,
                                            'brick': n_brick_bad, 'same_object_motion': n_motion_bad,
-                                           'option_history': n_hist_bad}
+                                           'option_history': n_hist_bad, 'farfield': n_far_bad}
     # 6. broken tie / proof without a failing input
     found_any = len(ctx.violations) > n_viol_before or ctx.known
     if not tie_ok and not found_any:
